@@ -542,6 +542,10 @@ func ruleC26(c *Ctx) {
 				{"asset id", readsField("account.UTXO", "AssetID")},
 				{"vote key", readsField("account.UTXO", "Vote")},
 				{"maturity", readsField("account.UTXO", "ValidHeight")},
+				{"output id not listed before (an output can be confirmed and unconfirmed at once)", func(v ssa.Value) bool {
+					l, ok := v.(*ssa.Lookup)
+					return ok && mentions(l.Index, readsField("account.UTXO", "OutputID"), 4, nil)
+				}},
 			} {
 				found := false
 				for _, cv := range conds {
